@@ -11,7 +11,8 @@
    against NumPy on every run.  unscaled_hyps = reader contract, 0 < itemsize, 0 <= offset,
    the canonical index c of ix is valid (ints in range, non-zero steps, rank matches), the
    file holds the array, and — only when ix selects the whole array — whole_ok mm shape
-   (memmap used, or the array is neither rank-0 nor zero-size: see C03_mmap_zero_size_refuted). *)
+   (memmap used, or the proxy is not rank-0; every image proxy has rank >= 1: see
+   C03_mmap_rank0_refuted).  Zero-length axes are covered (fix 599d4b17). *)
 From Coq Require Import ZArith List Bool Lia.
 From NV Require Import Base.PySlice C06.Model C06.Lemmas C03.Model C03.Lemmas.
 Import ListNotations.
@@ -75,6 +76,32 @@ Theorem C03_ecat_frames :
 Proof. exact @ecat_frames_positions. Qed.
 Print Assumptions C03_ecat_frames.
 
+(* ---- PAR/REC: records re-ordered by the sorted slice indices `ind`, each with the factors of
+   ITS record (slope[reorder]), broadcast over the two in-plane axes; whole-array path, the
+   "indices not sequential" path (slice the full array) and the fileslice path.  parrec_hyps =
+   reader contract, valid canonical index, the REC file holds nrec records, ind within range
+   and as many as the trailing axes need, and (ix = () or ind non-empty: `indices[0]` raises
+   on an image without slices). *)
+Theorem C03_getitem_eq_index_parrec :
+  forall (F R : Type) (scale : F -> list Z -> R) (dF : F) (dR : R)
+         rd file mm shape nrec ind w facs ix c,
+  parrec_hyps rd file mm shape nrec ind w ix c ->
+  parrec_getitem rd scale dF mm shape nrec ind w facs ix
+  = Ok (np_index dR OrdF shape c (parrec_full scale dF shape ind facs (parrec_raw file shape nrec ind w))).
+Proof. exact @parrec_getitem_spec. Qed.
+Print Assumptions C03_getitem_eq_index_parrec.
+
+(* ---- MINC (C order; image-min/-max over the first nscales axes, nscales < rank), full
+   statement: every valid index, integers-only ones included (fix 139e21b4) *)
+Theorem C03_getitem_eq_index_minc :
+  forall (F R : Type) (scale : F -> list Z -> R) (dF : F) (dR : R)
+         shape nscales elems facs ix c,
+  minc_hyps shape nscales elems facs ix c ->
+  minc_getitem scale dF shape nscales elems facs ix
+  = Ok (np_index dR OrdC shape c (minc_full scale dF shape nscales elems facs)).
+Proof. exact @minc_getitem_spec. Qed.
+Print Assumptions C03_getitem_eq_index_minc.
+
 (* ---- scaling applied exactly: np.asarray(proxy) is the pointwise scaling of the stored
    elements, in storage order, with the file's factor(s) *)
 Theorem C03_scaling_exact :
@@ -121,24 +148,32 @@ Theorem C03_config_independent :
 Proof. exact config_independent. Qed.
 Print Assumptions C03_config_independent.
 
-(* the mmap flag: irrelevant for every valid index unless the whole array is requested from a
-   rank-0 or zero-size proxy.  FULL STATEMENT (no size condition) is false of the faithful
-   model: array_from_file returns a 1-D empty array on its read path (finding S-C03b). *)
+(* the mmap flag is irrelevant for every valid index of every proxy of rank >= 1, zero-length
+   axes included (fix 599d4b17).  FULL STATEMENT over all shapes is false of the faithful model
+   only for a rank-0 proxy (shape ()), which no image format produces: array_from_file keeps
+   its `len(shape) == 0 -> np.array([])` early return (C03_mmap_rank0_refuted). *)
 Theorem C03_mmap_independent_partial :
   forall (F R : Type) (scale : F -> list Z -> R) (dR : R) rd file shape w off o f ix c,
   reader_ok rd file -> 0 < w -> 0 <= off -> canonical_slicers true ix shape = Ok c -> ix_valid shape c ->
   off + w * prod shape <= zlen file ->
-  (cidx_list_eqb c (all_none (length shape)) = true -> shape <> [] /\ prod shape <> 0) ->
+  (cidx_list_eqb c (all_none (length shape)) = true -> shape <> []) ->
   ap_getitem rd scale true shape w off o f ix = ap_getitem rd scale false shape w off o f ix.
 Proof. exact @mmap_independent. Qed.
 Print Assumptions C03_mmap_independent_partial.
 
-Theorem C03_mmap_zero_size_refuted :
-  exists shape ix c, canonical_slicers true ix shape = Ok c /\ ix_validb shape c = true
-  /\ ap_getitem (fread_at [7;7;7;7]) (fun (_ : unit) e => e) true shape 2 4 OrdF tt ix = Ok ([0;3], [])
-  /\ ap_getitem (fread_at [7;7;7;7]) (fun (_ : unit) e => e) false shape 2 4 OrdF tt ix = Ok ([0], []).
-Proof. exists [0;3], [], [CSl sl_none; CSl sl_none]. repeat split; vm_compute; reflexivity. Qed.
-Print Assumptions C03_mmap_zero_size_refuted.
+(* zero-size arrays: same (empty, correctly shaped) result with and without memmap *)
+Example C03_zero_size_mmap_agree :
+  ap_getitem (fread_at [7;7;7;7]) (fun (_ : unit) e => e) true [0;3] 2 4 OrdF tt [] = Ok ([0;3], [])
+  /\ ap_getitem (fread_at [7;7;7;7]) (fun (_ : unit) e => e) false [0;3] 2 4 OrdF tt [] = Ok ([0;3], []).
+Proof. split; vm_compute; reflexivity. Qed.
+Print Assumptions C03_zero_size_mmap_agree.
+
+Theorem C03_mmap_rank0_refuted :
+  exists ix c, canonical_slicers true ix [] = Ok c /\ ix_validb [] c = true
+  /\ ap_getitem (fread_at [7;7;1;2]) (fun (_ : unit) e => e) true [] 2 2 OrdF tt ix = Ok ([], [[1;2]])
+  /\ ap_getitem (fread_at [7;7;1;2]) (fun (_ : unit) e => e) false [] 2 2 OrdF tt ix = Ok ([0], []).
+Proof. exists [], []. repeat split; vm_compute; reflexivity. Qed.
+Print Assumptions C03_mmap_rank0_refuted.
 
 (* non-vacuity: a 3-frame ECAT-like stack, negative-step frame slice with a new axis after it,
    int and stepped slice inside the frame; hypotheses hold and the result is the expected
